@@ -1,44 +1,67 @@
 (* C20 — all views of a report agree on every test's outcome.  Statements only; the proofs are in Proofs/ViewsP.v.
    Spec side (ViewsP.v): count_status st r = length (filter (status is st) (all_tests r)), plain enumeration.
    Models: Model/Stats.v (ReportStats, build_message variables, console), Model/Junit.v, Model/Diff.v.
-   Statements that are false of the code as it is keep their hypothesis visible (`_partial`) and come with a `_refuted`
-   witness (F12, F13, F14 of DESIGN.md section 6), which harness/props/c20.py re-observes on the implementation on every run. *)
+   The models describe the code WITH the repairs F12 (JUnit children only on failed tests), F13 (ReportStats.from_suites
+   None-safe), F14 (build_message None-safe) and F18 (integer percentages) of DESIGN.md section 6: the statements these defects
+   refuted now hold without the `finished` hypothesis.  What the code did before is kept as `..._unfixed_refuted` witnesses
+   against the `..._unfixed` definitions of Model/Junit.v and Model/Stats.v; harness/props/c20.py replays the same witnesses on
+   the implementation on every run (a tree without the repairs is reported with them). *)
 From Coq Require Import List NArith ZArith Bool.
 Import ListNotations.
 From LCC Require Import Base.Util Model.Report Model.Stats Model.Junit Model.Diff Proofs.ViewsP.
 
 (* ------------------------------------------------------------------ JUnit ------------------------------------------ *)
 (* The <testcase> elements are exactly the tests of the report, in all_tests order; the children of each one are described
-   without any hypothesis: a skipped child iff status = skipped, a failure/error child iff the test is not skipped and one of
-   its logs is an error-level log or an unsuccessful check (whatever the status says). *)
+   without any hypothesis: a skipped child iff status = skipped, a failure/error child iff the status is failed and one of the
+   logs is an error-level log or an unsuccessful check. *)
 Theorem C20_junit_children : forall r j, junit_report r = VOk j ->
   flat_map js_cases (jr_suites j) = map (fun t => mkCase (m_name (t_meta t)) (junit_children (t_result t))) (all_tests r) /\
   forall t, In t (all_tests r) ->
     has_skipped_child (junit_children (t_result t)) = status_is s_skipped (t_result t) /\
     has_fail_child (junit_children (t_result t)) =
-      negb (status_is s_skipped (t_result t)) && negb (forallb step_successful (r_steps (t_result t))).
+      status_is s_failed (t_result t) && negb (forallb step_successful (r_steps (t_result t))).
 Proof. exact thm_junit_children. Qed.
 Print Assumptions C20_junit_children.
 
-(* C20_junit_iff, full statement (for every test: failure/error child <-> status failed, skipped child <-> status skipped) is
-   FALSE of the code (C20_junit_iff_refuted).  Proved part: it holds for every test whose recorded verdict is sound
-   (verdict_sound: unless skipped, status = failed exactly when a log is an error log or a failed check) — which the report
-   writer guarantees for finished tests; what is missing is the in-progress test (status None) that already holds an error. *)
+(* With F12 repaired, for EVERY test of every report, no hypothesis: a failure/error child => status failed; skipped child <=>
+   status skipped; a test in progress (status None) has no child at all. *)
+Theorem C20_junit_child_status : forall r j, junit_report r = VOk j ->
+  forall t, In t (all_tests r) ->
+    (has_fail_child (junit_children (t_result t)) = true -> r_status (t_result t) = Some s_failed) /\
+    (has_skipped_child (junit_children (t_result t)) = true <-> r_status (t_result t) = Some s_skipped) /\
+    (r_status (t_result t) = None -> junit_children (t_result t) = []).
+Proof. exact thm_junit_child_status. Qed.
+Print Assumptions C20_junit_child_status.
+
+(* C20_junit_iff, full statement (for every test: failure/error child <-> status failed, skipped child <-> status skipped).
+   The remaining direction "status failed => failure/error child" needs the failed test to hold a failing log
+   (failed_has_cause: what the report writer guarantees, `status = "passed" if result.is_successful() else "failed"`);
+   C20_junit_iff_needs_failing_log shows that it cannot be dropped. *)
 Theorem C20_junit_iff_partial : forall r j, junit_report r = VOk j ->
-  forall t, In t (all_tests r) -> verdict_sound (t_result t) ->
+  forall t, In t (all_tests r) -> failed_has_cause (t_result t) ->
     (has_fail_child (junit_children (t_result t)) = true <-> r_status (t_result t) = Some s_failed) /\
     (has_skipped_child (junit_children (t_result t)) = true <-> r_status (t_result t) = Some s_skipped).
 Proof. exact thm_junit_iff_partial. Qed.
 Print Assumptions C20_junit_iff_partial.
 
-(* F12: an in-progress test with an error log gets an <error> child; its status is not failed and every failures counter is 0 *)
-Theorem C20_junit_iff_refuted : exists r j t,
+Theorem C20_junit_iff_needs_failing_log : exists r j t,
+  junit_report r = VOk j /\ In t (all_tests r) /\ r_status (t_result t) = Some s_failed /\
+  ~ failed_has_cause (t_result t) /\
+  has_fail_child (junit_children (t_result t)) = false /\
+  jr_failures j = 1 /\ map js_failures (jr_suites j) = [1].
+Proof. exact thm_junit_iff_needs_failing_log. Qed.
+Print Assumptions C20_junit_iff_needs_failing_log.
+
+(* F12, code before the repair (Junit.junit_children_unfixed): an in-progress test with an error log got an <error> child; its
+   status is not failed and every failures counter is 0.  The repaired code gives that testcase no child. *)
+Theorem C20_junit_iff_unfixed_refuted : exists r j t,
   junit_report r = VOk j /\ In t (all_tests r) /\ r_status (t_result t) = None /\
-  In (mkCase (m_name (t_meta t)) [JError]) (flat_map js_cases (jr_suites j)) /\
-  has_fail_child (junit_children (t_result t)) = true /\
-  jr_failures j = 0 /\ map js_failures (jr_suites j) = [0].
-Proof. exact thm_junit_iff_refuted. Qed.
-Print Assumptions C20_junit_iff_refuted.
+  junit_children_unfixed (t_result t) = [JError] /\
+  has_fail_child (junit_children_unfixed (t_result t)) = true /\
+  jr_failures j = 0 /\ map js_failures (jr_suites j) = [0] /\
+  flat_map js_cases (jr_suites j) = [mkCase (m_name (t_meta t)) []].
+Proof. exact thm_junit_iff_unfixed_refuted. Qed.
+Print Assumptions C20_junit_iff_unfixed_refuted.
 
 (* per-suite counters = the counts obtained by enumerating the tests of that suite (junit_shown r: the suites that have at
    least one test, with their path); they add up to the enumeration of the whole report; the top-level failures attribute is the
@@ -57,10 +80,10 @@ Theorem C20_junit_counters : forall r j, junit_report r = VOk j ->
 Proof. exact thm_junit_counters. Qed.
 Print Assumptions C20_junit_counters.
 
-(* counters versus children: when the verdicts of a suite's tests are sound, failures = number of testcases carrying a
-   failure/error child and skipped = number of testcases carrying a skipped child.  Missing: in-progress tests (F12). *)
+(* counters versus children: when every failed test holds a failing log, failures = number of testcases carrying a
+   failure/error child and skipped = number of testcases carrying a skipped child (in-progress tests included). *)
 Theorem C20_junit_counters_children_partial : forall r j, junit_report r = VOk j ->
-  Forall (fun t => verdict_sound (t_result t)) (all_tests r) ->
+  Forall (fun t => failed_has_cause (t_result t)) (all_tests r) ->
   Forall (fun js => js_failures js = length (filter (fun c => has_fail_child (jc_children c)) (js_cases js)) /\
                     js_skipped js = length (filter (fun c => has_skipped_child (jc_children c)) (js_cases js)))
          (jr_suites j).
@@ -93,18 +116,65 @@ Theorem C20_message_vars : forall r m, message_ints r = VOk m ->
 Proof. exact message_vars. Qed.
 Print Assumptions C20_message_vars.
 
-(* "build_message returns for every report with known statuses" is FALSE (F14); it does on finished reports *)
-Theorem C20_message_vars_partial : forall r, finished r -> statuses_known r -> exists m, message_ints r = VOk m.
-Proof. exact thm_message_vars_partial. Qed.
-Print Assumptions C20_message_vars_partial.
+(* build_message returns on every report whose statuses are known, FINISHED OR NOT (F14 repaired); its only error is the
+   KeyError of a status outside Result.STATUSES *)
+Theorem C20_message_vars_total : forall r,
+  (statuses_known r -> exists m, message_ints r = VOk m) /\
+  (forall e, message_ints r = VErr e -> e = KeyError /\ ~ statuses_known r).
+Proof. exact thm_message_total. Qed.
+Print Assumptions C20_message_vars_total.
 
-Theorem C20_message_vars_refuted : exists r, statuses_known r /\ message_ints r = VErr TypeError.
-Proof. exact thm_message_vars_refuted. Qed.
-Print Assumptions C20_message_vars_refuted.
+(* the duration variable reads "n/a" exactly when the start or the end time of the report is missing, and is end - start
+   otherwise.  (start_time / end_time are asctime(localtime(t)); with t = None that is the current time: clock-dependent text
+   that carries no outcome, left out of the model as before.) *)
+Theorem C20_message_na : forall r m, message_ints r = VOk m ->
+  (mv_duration m = None <-> rp_start r = None \/ rp_end r = None) /\
+  (forall b e, rp_start r = Some b -> rp_end r = Some e -> mv_duration m = Some (e - b)%Z).
+Proof. exact message_na. Qed.
+Print Assumptions C20_message_na.
+
+(* F14, code before the repair (Stats.message_ints_unfixed): the `duration` variable raised TypeError on an unfinished report,
+   so that not even the counts could be obtained; the repaired code returns them *)
+Theorem C20_message_vars_unfixed_refuted : exists r m, statuses_known r /\ rp_end r = None /\
+  message_ints_unfixed r = VErr TypeError /\
+  message_ints r = VOk m /\ mv_duration m = None /\ mv_total m = 1.
+Proof. exact thm_message_unfixed_refuted. Qed.
+Print Assumptions C20_message_vars_unfixed_refuted.
+
+(* ------------------------------------------------------------------ percentages (integer arithmetic, F18 repaired) -- *)
+(* pct v o, the number printed by _percent(v, of=o) and by the console "Successes" line, is 0 when o = 0 and the floor of
+   100*v/o otherwise (29 out of 50 is 58) *)
+Theorem C20_pct_floor : forall v o,
+  (o = 0 -> pct v o = 0%Z) /\
+  (0 < o -> (pct v o * Z.of_nat o <= Z.of_nat v * 100 < (pct v o + 1) * Z.of_nat o)%Z) /\
+  (v <= o -> (0 <= pct v o <= 100)%Z).
+Proof. exact thm_pct_floor. Qed.
+Print Assumptions C20_pct_floor.
+
+(* the *_pct message variables are these floors of the enumeration counts; passed_pct + failed_pct + skipped_pct never exceeds
+   100 and is at least 98 when there is an enabled test *)
+Theorem C20_message_pcts : forall r m, message_ints r = VOk m ->
+  let p := message_pcts m in
+  p_passed p = pct (count_status s_passed r) (enabled_count r) /\
+  p_failed p = pct (count_status s_failed r) (enabled_count r) /\
+  p_skipped p = pct (count_status s_skipped r) (enabled_count r) /\
+  p_disabled p = pct (count_status s_disabled r) (length (all_tests r)) /\
+  (0 <= p_passed p + p_failed p + p_skipped p <= 100)%Z /\
+  (0 < enabled_count r -> (98 <= p_passed p + p_failed p + p_skipped p)%Z) /\
+  (0 <= p_disabled p)%Z.
+Proof. exact thm_message_pcts. Qed.
+Print Assumptions C20_message_pcts.
+
+(* the percentage of the console summary of the whole report is the passed_pct message variable *)
+Theorem C20_console_pct_is_message_pct : forall r s m, from_report r = VOk s -> message_ints r = VOk m ->
+  summary_pct s = p_passed (message_pcts m).
+Proof. exact thm_console_pct_is_message_pct. Qed.
+Print Assumptions C20_console_pct_is_message_pct.
 
 (* ------------------------------------------------------------------ console (lcc report --short) ------------------- *)
-(* whenever the console report is printed: the OK/KO/-- lines are the selected tests in order, and the summary numbers are the
-   enumeration counts of the selected tests (filter given) or of the whole report (no filter) *)
+(* whenever the console report is printed: the OK/KO/-- lines are the selected tests in order, the summary numbers are the
+   enumeration counts of the selected tests (filter given) or of the whole report (no filter), and the percentage is the floor
+   of 100 * passed / (passed + failed + skipped) of the same tests *)
 Theorem C20_console_counts : forall truthy f r lines s,
   console_short truthy f r = VOk (COut lines s) ->
   let sel := filter (fun t => f (t_result t)) (all_tests r) in
@@ -114,7 +184,8 @@ Theorem C20_console_counts : forall truthy f r lines s,
   sm_passed (summary_of s) = count_in s_passed shown /\
   sm_failed (summary_of s) = count_in s_failed shown /\
   sm_skipped (summary_of s) = nz (count_in s_skipped shown) /\
-  sm_disabled (summary_of s) = nz (count_in s_disabled shown).
+  sm_disabled (summary_of s) = nz (count_in s_disabled shown) /\
+  summary_pct s = pct (count_in s_passed shown) (count_in s_passed shown + count_in s_failed shown + count_in s_skipped shown).
 Proof. exact thm_console_counts. Qed.
 Print Assumptions C20_console_counts.
 
@@ -129,17 +200,24 @@ Theorem C20_console_labels : forall t, status_in_enum (r_status (t_result t)) ->
 Proof. exact thm_console_labels. Qed.
 Print Assumptions C20_console_labels.
 
-(* "the console report is printed for every report with known statuses" is FALSE with a filter (F13); true on finished reports *)
-Theorem C20_console_counts_partial : forall truthy f r, finished r -> statuses_known r ->
-  exists out, console_short truthy f r = VOk out.
-Proof. exact console_total. Qed.
-Print Assumptions C20_console_counts_partial.
+(* the console report is printed for every report with known statuses, FINISHED OR NOT, with or without a filter (F13
+   repaired); its only error is the KeyError of a status outside Result.STATUSES *)
+Theorem C20_console_total : forall truthy f r,
+  (statuses_known r -> exists out, console_short truthy f r = VOk out) /\
+  (forall e, console_short truthy f r = VErr e -> e = KeyError /\ ~ statuses_known r).
+Proof. exact thm_console_total. Qed.
+Print Assumptions C20_console_total.
 
-Theorem C20_console_counts_refuted : exists r, statuses_known r /\
-  rf_truthy f_enabled_only = true /\ console_short true (rf_apply f_enabled_only) r = VErr TypeError /\
-  exists out, console_short false (fun _ => true) r = VOk out.
-Proof. exact thm_console_counts_refuted. Qed.
-Print Assumptions C20_console_counts_refuted.
+(* F13, code before the repair (Stats.from_suites_unfixed): TypeError on the filtered suites of an unfinished report whose last
+   selected result is in progress, IndexError on an empty selection; the repaired code prints the report (duration n/a) *)
+Theorem C20_console_counts_unfixed_refuted : exists r s, statuses_known r /\ rf_truthy f_enabled_only = true /\
+  from_suites_unfixed (filter_suites (rf_apply f_enabled_only) (rp_suites r)) (parallelized r) = VErr TypeError /\
+  from_suites_unfixed [] false = VErr IndexError /\
+  console_short true (rf_apply f_enabled_only) r = VOk (COut [[LDash]] s) /\
+  st_duration s = None /\ st_tests_nb s = 1 /\
+  exists s0, from_suites [] false = VOk s0 /\ st_tests_nb s0 = 0 /\ st_duration s0 = None.
+Proof. exact thm_console_unfixed_refuted. Qed.
+Print Assumptions C20_console_counts_unfixed_refuted.
 
 (* ------------------------------------------------------------------ diff ------------------------------------------- *)
 (* with unique test paths in each report (compute_diff matches tests by path, first come first served): added / removed /
@@ -171,27 +249,46 @@ Print Assumptions C20_diff_self_empty.
 
 (* ------------------------------------------------------------------ non-vacuity ------------------------------------ *)
 Example C20_ex_hypotheses :
-  finished w_finished /\ statuses_known w_finished /\ unique_test_paths w_finished /\ unique_test_paths w_finished2 /\
-  Forall (fun t => verdict_sound (t_result t)) (all_tests w_finished) /\ length (all_tests w_finished) = 6 /\
+  statuses_known w_finished /\ unique_test_paths w_finished /\ unique_test_paths w_finished2 /\
+  Forall (fun t => failed_has_cause (t_result t)) (all_tests w_finished) /\ length (all_tests w_finished) = 6 /\
   Forall (fun t => status_in_enum (r_status (t_result t))) (all_tests w_finished).
 Proof.
-  split; [repeat split; try discriminate; vm_compute; reflexivity|].
   split; [vm_compute; reflexivity|].
   split; [apply nodupb_NoDup; vm_compute; reflexivity|].
   split; [apply nodupb_NoDup; vm_compute; reflexivity|].
-  split; [repeat constructor; intro; vm_compute; reflexivity|].
+  split; [repeat constructor; intro H; vm_compute in H |- *; first [reflexivity | discriminate H]|].
   split; [reflexivity|].
   repeat constructor; unfold status_in_enum; simpl; tauto.
 Qed.
 
+(* the hypotheses hold on an unfinished report too (a test in progress that already logged an error), and every view returns *)
+Example C20_ex_unfinished :
+  statuses_known w_unfinished /\ rp_end w_unfinished = None /\
+  Forall (fun t => failed_has_cause (t_result t)) (all_tests w_unfinished) /\
+  message_ints w_unfinished = VOk (mkMsg None 1 0 0 0 0 0) /\
+  message_pcts (mkMsg None 1 0 0 0 0 0) = mkPcts 0 0 0 0 /\
+  (exists j, junit_report w_unfinished = VOk j /\ flat_map js_cases (jr_suites j) = [mkCase [116%N] []]) /\
+  (exists s, console_short false (fun _ => true) w_unfinished = VOk (COut [[LDash]] s)).
+Proof.
+  split; [vm_compute; reflexivity|]. split; [reflexivity|].
+  split; [repeat constructor; intro H; vm_compute in H; discriminate H|].
+  split; [vm_compute; reflexivity|]. split; [vm_compute; reflexivity|].
+  split; eexists; [split|]; vm_compute; reflexivity.
+Qed.
+
+Example C20_ex_pct : pct 29 50 = 58%Z /\ pct 2 3 = 66%Z /\ pct 1 3 = 33%Z /\ pct 0 0 = 0%Z /\ pct 50 50 = 100%Z.
+Proof. vm_compute. auto. Qed.
+
 Example C20_ex_views :
-  message_ints w_finished = VOk (mkMsg 8000 6 5 2 2 1 1) /\
+  message_ints w_finished = VOk (mkMsg (Some 8000%Z) 6 5 2 2 1 1) /\
+  message_pcts (mkMsg (Some 8000%Z) 6 5 2 2 1 1) = mkPcts 40 40 20 16 /\
   (exists j, junit_report w_finished = VOk j /\ map js_failures (jr_suites j) = [2; 0] /\ map js_skipped (jr_suites j) = [1; 0]
              /\ jr_failures j = 2) /\
   (exists s, console_short true (rf_apply f_enabled_only) w_finished = VOk (COut [[LOK; LKO; LKO; LDash]; [LOK]] s)
              /\ st_tests_nb s = 5 /\ n_disabled (st_by s) = 0).
 Proof.
-  split; [vm_compute; reflexivity|]. split; eexists; (split; [vm_compute; reflexivity|]); vm_compute; auto.
+  split; [vm_compute; reflexivity|]. split; [vm_compute; reflexivity|].
+  split; eexists; (split; [vm_compute; reflexivity|]); vm_compute; auto.
 Qed.
 
 Example C20_ex_diff :
@@ -202,22 +299,25 @@ Proof. vm_compute. reflexivity. Qed.
 
 (* ------------------------------------------------------------------ tie of the model constants to the source -------- *)
 (* gen/TablesViews.v is regenerated from /repo by harness/tables_views.py on every run (fail-closed on unknown shapes): the
-   status names, the statuses counted as "enabled", the message variables, the JUnit child rules and counters, the console
-   labels and summary lines the hand-written models are built on are the ones in the source. *)
+   status names, the statuses counted as "enabled", the message variables (duration reads "n/a" on None), the JUnit
+   child rules (failure/error only under `status == "failed"`) and counters, the console labels and summary lines the
+   hand-written models are built on are the ones in the source.  The translator also pins, without emitting them, the shapes of
+   _get_duration, Report.duration, ReportStats.from_results / from_report / from_suites, Report.build_message, _percent and
+   successful_tests_percentage (integer `* 100 //`): a source without the repairs F12, F13, F14, F18 is rejected. *)
 From LCC Require Import gen.TablesViews.
 From Coq Require Import Strings.String Strings.Ascii.
 Definition cp (x : string) : str := List.map N_of_ascii (list_ascii_of_string x).
 Theorem C20_tables_tie :
   gen_statuses = [s_passed; s_failed; s_skipped; s_disabled] /\
   gen_enabled = [s_passed; s_failed; s_skipped] /\
-  gen_message_vars = [(cp "start_time", [], []); (cp "end_time", [], []); (cp "duration", [], []);
+  gen_message_vars = [(cp "start_time", [], []); (cp "end_time", [], []); (cp "duration", cp "None->n/a", []);
                       (cp "total", cp "*", []); (cp "enabled", cp "enabled", []);
                       (cp "passed", s_passed, []); (cp "passed_pct", s_passed, cp "enabled");
                       (cp "failed", s_failed, []); (cp "failed_pct", s_failed, cp "enabled");
                       (cp "skipped", s_skipped, []); (cp "skipped_pct", s_skipped, cp "enabled");
                       (cp "disabled", s_disabled, []); (cp "disabled_pct", s_disabled, cp "*")] /\
-  gen_junit_rules = [(cp "status==skipped", cp "skipped"); (cp "check:unsuccessful", cp "failure");
-                     (cp "log:level==error", cp "error")] /\
+  gen_junit_rules = [(cp "status==skipped", cp "skipped"); (cp "status==failed&check:unsuccessful", cp "failure");
+                     (cp "status==failed&log:level==error", cp "error")] /\
   gen_junit_suite = [(cp "tests", cp "*"); (cp "failures", s_failed); (cp "skipped", s_skipped)] /\
   gen_junit_top = [(cp "tests", s_passed); (cp "failures", s_failed)] /\
   gen_console_labels = [(s_passed, cp "OK"); (s_skipped, cp "--"); (s_disabled, cp "--"); (cp "None", cp "--"); (cp "*", cp "KO")] /\
